@@ -127,11 +127,13 @@ class CaseView:
         self.before = []
         cur = []
         seen = set()
-        for o in c["ops"]:
+        self.new_series_ops = set()   # inserts that create a series (they invalidate the tag-filter result cache)
+        for oi, o in enumerate(c["ops"]):
             self.before.append(list(cur))
             if o["op"] == "insert":
                 key = (o["mst"], tuple(tuple(t) for t in o.get("tags") or []))
                 if key not in seen:
+                    self.new_series_ops.add(oi)
                     seen.add(key)
                     cur.append((o["mst"], dict(o.get("tags") or [])))
 
@@ -280,6 +282,8 @@ def collision_events(cv):
                 oa = ops[a]
                 if oa["op"] != "query" or oa["mst"] != ob["mst"]:
                     continue
+                if any(ops[j]["op"] == "clear" or j in cv.new_series_ops for j in range(a + 1, b)):
+                    continue
                 for a1 in atoms_of(oa.get("expr"), []):
                     if a1["o"] == a2["o"] and a1["k"] == a2["k"] and a1["v"] != a2["v"] and \
                             keytext.get(a1["v"]) is not None and keytext.get(a1["v"]) == keytext.get(a2["v"]):
@@ -384,7 +388,7 @@ def main(ck):
                               "no axioms (Print Assumptions: closed)", "Go regexp as the oracle of regex atoms; Go regexp/syntax parser for the pattern trees",
                               "Go harness cmd/c10 (generator, brute-force oracle), python driver props/C10/run.py (interning, signatures)"]
     ck.coq_audit(["C10"])
-    ok = ck.coq_build(["C10/Proofs.vo", "C10/RegexProofs.vo", "C10/Corr.vo", "C10/Props.vo", "C10/Refuted.vo"])
+    ok = ck.coq_build(["C10/Proofs.vo", "C10/RegexProofs.vo", "C10/RegexSearch.vo", "C10/Corr.vo", "C10/Props.vo", "C10/Refuted.vo"])
     if ok:
         ck.coq_props(["C10/Props.v", "C10/Refuted.v"])
     binp = ck.go_build("./cmd/c10", "c10")
